@@ -418,3 +418,24 @@ PROPS["C05"] = dict(
         H("c05_witness_must_fail", kind="witness", tier="thorough", timeout=600, unwindset=U05),
     ],
 )
+
+U07 = {r"select_in_word_ctz|pdep_u64|spec.*select_in_word": 66, r"spec.*rank1|spec.*select1|build_ib_rank": 14}
+
+PROPS["C07"] = dict(
+    module="c07",
+    bounds=("interest-bit words: every content of 1, 4, 9, 12 words; every rank position, every k:usize (including k >= ones and k >= 2^32), every hint 0..=words+10; "
+            "CTZ and PDEP in-word select"),
+    outside=("node positions (text_position / cursor_at_offset) need JsonIndex::build plus BP navigation over symbolic text and are NOT decided here "
+             "(the BP navigation they rest on is C04, the index bits C05); more than 12 interest-bit words"),
+    assumptions=["_pdep_u64 replaced by models.rs", "BalancedParens part of the index built over a single zero word (not the subject)"],
+    harnesses=[
+        H("c07_ib_1w", timeout=600, unwindset=U07, bounds="1 word"),
+        H("c07_ib_4w", timeout=900, unwindset=U07, bounds="4 words, CTZ"),
+        H("c07_ib_4w_pdep", timeout=900, unwindset=U07, bounds="4 words, PDEP model"),
+        H("c07_ib_9w", timeout=1800, unwindset=U07, tier="thorough", bounds="9 words (three galloping doublings)"),
+        H("c07_ib_12w", timeout=2700, unwindset=U07, tier="thorough", bounds="12 words"),
+        H("c07_ib_empty", timeout=300, bounds="no words"),
+        H("c07_from_serialized_parts_2w", timeout=900, unwindset=U07, bounds="2 words through the byte serialization"),
+        H("c07_witness_must_fail", kind="witness", tier="thorough", timeout=600, unwindset=U07),
+    ],
+)
